@@ -70,7 +70,59 @@ func twinOp(r *core.Rand, a *msggen.Abs, mode string) string {
 	if logger != "snapshot" && r.Chance(1, 4) {
 		skip = "1"
 	}
-	return strings.Join(append([]string{"twin", logger, o1, o2, skip, mode}, a.Tokens()...), " ")
+	return strings.Join(append([]string{"twinx", logger, o1, o2, skip, mode, TrustedTok(a)}, a.Tokens()...), " ")
+}
+
+// maybeMalform turns about one body-carrying twin message in four into one whose body does not
+// parse as declared (form / multipart for requests, content coding for both directions).
+func maybeMalform(r *core.Rand, a *msggen.Abs) {
+	if !CarriesBody(a) || !r.Chance(1, 4) {
+		return
+	}
+	kinds := BadKindsAny
+	if a.Req && r.Chance(2, 3) {
+		kinds = BadKindsReq
+	}
+	k := kinds[r.Intn(len(kinds))]
+	Malform(r, a, k)
+	core.Count("bad:" + k)
+}
+
+// badCases: every malformation x every logger (body capture on, and the options that avoid the
+// failing parser) x Content-Length / chunked (/ close-delimited) framing.
+func badCases(r *core.Rand, emit func([]string)) {
+	type lg struct{ name, o1, o2 string }
+	loggers := []lg{{"har", "all", "all"}, {"har", "in:" + ctsTok([]string{"multipart/", "application/x-www-form"}), "out:" + ctsTok([]string{"zz/none"})},
+		{"har", "none", "none"}, {"marbl", "-", "-"}, {"text", "0", "0"}, {"text", "0", "1"}, {"text", "1", "1"}, {"snapshot", "0", "-"}}
+	for _, req := range []bool{true, false} {
+		kinds := BadKindsAny
+		if req {
+			kinds = append(append([]string{}, BadKindsReq...), BadKindsAny...)
+		}
+		for _, k := range kinds {
+			for _, fr := range []string{"cl", "chunked", "eof"} {
+				if req && fr == "eof" {
+					continue
+				}
+				var ops []string
+				for _, l := range loggers {
+					s := &msggen.Spec{Req: req, Method: r.Pick("POST", "PUT"), URL: "http://h.example/up", Host: "h.example", Code: 200,
+						Framing: fr, CT: "application/octet-stream", Payload: []byte("x")}
+					if fr == "chunked" {
+						s.Chunks = []int{1 + r.Intn(9), 1 + r.Intn(40)}
+						if r.Chance(1, 3) {
+							s.HasTr, s.Trailer = true, []msggen.KV{{K: "X-T", V: "v"}}
+						}
+					}
+					a := s.Abs()
+					Malform(r, a, k)
+					core.Count("badcase:" + l.name)
+					ops = append(ops, strings.Join(append([]string{"twinx", l.name, l.o1, l.o2, "0", "p", TrustedTok(a)}, a.Tokens()...), " "))
+				}
+				emit(ops)
+			}
+		}
+	}
 }
 
 // bigCases: every logger with body capture on, on request and response, each framing, with a body
@@ -107,7 +159,8 @@ func bigCases(r *core.Rand, tier string, emit func([]string)) {
 							s.Chunks = []int{1 + r.Intn(70000), 1 + r.Intn(70000)}
 						}
 						core.Count("big:" + l.name)
-						ops = append(ops, strings.Join(append([]string{"twin", l.name, l.o1, l.o2, "0", "p"}, s.Abs().Tokens()...), " "))
+						ab := s.Abs()
+						ops = append(ops, strings.Join(append([]string{"twinx", l.name, l.o1, l.o2, "0", "p", TrustedTok(ab)}, ab.Tokens()...), " "))
 					}
 					emit(ops)
 				}
@@ -120,6 +173,7 @@ func itoa(n int) string { return strconv.Itoa(n) }
 
 func (P) Gen(r *core.Rand, tier string, emit func([]string)) {
 	bigCases(r.Fork(), tier, emit)
+	badCases(r.Fork(), emit)
 	n := 350
 	if tier == "thorough" {
 		n = 4000
@@ -175,6 +229,7 @@ func (P) Gen(r *core.Rand, tier string, emit func([]string)) {
 				}
 			}
 			core.Count("twinmsg:" + b.Class())
+			maybeMalform(r, ab)
 			ops = append(ops, twinOp(r, ab, m))
 		}
 		emit(ops)
